@@ -217,7 +217,21 @@ fn has_sign_observer(t: &TreeOp, depth: usize) -> bool {
     }
 }
 
-pub struct TreeResult { pub case: String, pub impl_line: String, pub fails: Vec<String>, pub has_remap: bool }
+pub struct TreeResult { pub case: String, pub impl_line: String, pub fails: Vec<String>, pub has_remap: bool, pub too_shared: bool }
+
+/// Number of nodes of the tree with all sharing expanded (what a walk without a visited set costs)
+fn expanded_size(t: &TreeOp, memo: &mut HashMap<*const TreeOp, f64>) -> f64 {
+    let k = t as *const TreeOp;
+    if let Some(v) = memo.get(&k) { return *v; }
+    let v = 1.0 + match t {
+        TreeOp::Input(_) | TreeOp::Const(_) => 0.0,
+        TreeOp::Unary(_, a) => expanded_size(a, memo),
+        TreeOp::Binary(_, l, r) => expanded_size(l, memo) + expanded_size(r, memo),
+        TreeOp::RemapAxes { target, x, y, z } => expanded_size(target, memo) + expanded_size(x, memo) + expanded_size(y, memo) + expanded_size(z, memo),
+        TreeOp::RemapAffine { target, .. } => expanded_size(target, memo),
+    };
+    memo.insert(k, v); v
+}
 
 pub fn tree_case(r: &mut Rng, cmd: &str, remaps: usize) -> TreeResult {
     let vs: Vec<Var> = (0..r.below(3)).map(|_| Var::new()).collect();
@@ -237,9 +251,14 @@ pub fn tree_case(r: &mut Rng, cmd: &str, remaps: usize) -> TreeResult {
     let len_before = ctx.len();
     let exported = ctx.export(node).unwrap();
     let back = ctx.import(&exported);
+    // Tree's Eq and Hash (and the walks below) visit a shared subtree once per use: on a tree whose expansion is huge
+    // (x*x squared twenty times) they take 2^depth steps.  That is cost, not meaning: those trees keep the import /
+    // export / dedup checks and leave the structural comparisons and the tree walk out.
+    let too_shared = expanded_size(&*tree, &mut HashMap::new()).max(expanded_size(&*exported, &mut HashMap::new())) > 200_000.0;
     if back != node || ctx.len() != len_before { fails.push(format!("kind=import-export import(export(n)) gave node {} (n = {}), arena grew by {}", back.verif_index(), node.verif_index(), ctx.len() - len_before)); }
     // structurally equal trees are Eq and hash equally (rebuild an equal tree without sharing)
     let twin = ctx.export(node).unwrap();
+    if too_shared { return TreeResult { case, impl_line, fails, has_remap: remaps > 0, too_shared }; }
     if exported != twin { fails.push("kind=tree-eq two exports of one node are not equal".into()); }
     let h = |t: &Tree| { let mut s = DefaultHasher::new(); t.hash(&mut s); s.finish() };
     if h(&exported) != h(&twin) { fails.push("kind=tree-hash structurally equal trees hash differently".into()); }
@@ -278,7 +297,7 @@ pub fn tree_case(r: &mut Rng, cmd: &str, remaps: usize) -> TreeResult {
             fails.push(format!("kind={kind} imported={got} direct={want} point={p:?}"));
         }
     }
-    TreeResult { case, impl_line, fails, has_remap: remaps > 0 }
+    TreeResult { case, impl_line, fails, has_remap: remaps > 0, too_shared }
 }
 
 /// 10^6-deep trees: build, clone-compare, hash, import, export, drop on a 256 KiB stack.
@@ -334,6 +353,7 @@ pub fn run(seed: u64, count: usize, outdir: &str, which: &str) -> std::io::Resul
         let remaps = if which == "c13" { r.range(1, 6) } else { 0 };
         let res = tree_case(&mut r, "c13", remaps);
         *kinds.entry(if res.has_remap { "tree-with-remaps".into() } else { "tree".into() }).or_default() += 1;
+        if res.too_shared { *kinds.entry("tree-too-shared-for-structural-walks".into()).or_default() += 1; }
         for f in &res.fails { fails += 1; writeln!(oracle, "FAIL case={ci} {f} tree={}", res.case.chars().take(400).collect::<String>()).unwrap(); }
         if samples_out.len() < 3 && res.case.len() < 300 { samples_out.push(format!("{} => {}", res.case, res.impl_line)); }
         distinct.insert(res.case.clone());
